@@ -1466,6 +1466,20 @@ func (d *Data) moveElementInLabels(ctx *datastore.VersionedCtx, batch storage.Ba
 		return err
 	}
 	if oldLabel == newLabel {
+		if oldLabel == 0 {
+			return nil
+		}
+		// same label: the label's list keeps the element but must record its new position
+		tk := NewLabelTKey(oldLabel)
+		elems, err := getElementsNR(ctx, tk)
+		if err != nil {
+			return fmt.Errorf("err getting elements for label %d: %v", oldLabel, err)
+		}
+		if _, changed := elems.move(from, to, false); changed {
+			if err := putBatchElements(batch, tk, elems); err != nil {
+				return fmt.Errorf("err putting moved label %d element: %v", oldLabel, err)
+			}
+		}
 		return nil
 	}
 
